@@ -76,11 +76,19 @@ def check_trees(ck, n):
             stdout_result, stderr_result = 'o', None
 
             def join(self):
-                joined.append(len(world.kills) + len(world.sudo_kills))
+                joined.append(len(world.kills))
+        handed = []
+
+        def sudo_fn(pid):
+            # the scripted sudo: record what is handed over, then play the privileged helper (denoise.py kill pid)
+            from rebench import denoise as dn
+            handed.append(pid)
+            dn._kill(pid)
         with world.active():
             res = skill.kill_process(t['pid'], rec, Th() if rng.random() < 0.5 else None,
-                                     world.sudo_kill if sudo else None)
-        kills = world.sudo_kills if sudo else world.kills
+                                     sudo_fn if sudo else None)
+        kills = handed if sudo else world.kills
+        effect = world.kills          # the SIGKILLs really sent (by the helper when sudo is used)
         d = depth_of(t)
         n_all = len(K.all_pids(t))
         ck.count('tree-depth:%d' % d)
@@ -92,12 +100,13 @@ def check_trees(ck, n):
         if kills != ans['pids'] or res[0] != -9:
             ck.disagree('c16.killlist: kill_process/_get_process_children vs RB.Kill.killList', inp,
                         {'kills': kills, 'rc': res[0]}, ans, TH_TREE)
-        if joined and joined[0] != len(kills):
+        if joined and joined[0] != len(effect):
             ck.disagree('c16.killlist: the worker is joined after all kills', inp, {'joined_after': joined}, None, TH_TREE)
         # oracle: root first, every process of the tree exactly once, nothing else
-        want = K.all_pids(t) if rec else [t['pid']]
-        if sorted(kills) != sorted(want) or (kills and kills[0] != t['pid']):
-            missing = sorted(set(want) - set(kills))
+        want = K.all_pids(t) if (rec or sudo) else [t['pid']]
+        bad = (sorted(set(effect)) != sorted(want)) if sudo else (sorted(kills) != sorted(want))
+        if bad or (kills and kills[0] != t['pid']):
+            missing = sorted(set(want) - set(effect))
             ck.oracle_fail('tree_all_killed', inp, {'killed': kills, 'missing': missing[:10],
                                                     'twice': sorted(set(p for p in kills if kills.count(p) > 1))[:10]},
                            signature={'clause': 'tree_all_killed', 'mode': 'scripted-pgrep',
@@ -138,21 +147,49 @@ def check_decisions(ck):
                     for sudo in (False, True):
                         sits.append(({'timeout': timeout, 'join_end': je, 'alive_reported': alive,
                                       'child_running': running, 'worker_raised': raised}, kt, sudo))
+    # interrupts that arrive while run() is still inside thread.start()
+    for timeout in (-1, 5, 700):
+        for kt in (True, False):
+            for sudo in (False, True):
+                sits.append(({'timeout': timeout, 'join_end': 'interrupt', 'alive_reported': False, 'child_running': True,
+                              'worker_raised': False, 'start_interrupt': 'after-launch'}, kt, sudo))
+                sits.append(({'timeout': timeout, 'join_end': 'interrupt', 'alive_reported': False, 'child_running': False,
+                              'worker_raised': False, 'start_interrupt': 'before-launch'}, kt, sudo))
     ops = []
     for (s, kt, sudo) in sits:
-        op = dict(s)
+        op = dict((k, v) for k, v in s.items() if k != 'start_interrupt')
         op.update({'op': 'c16.run', 'tree': tree0, 'kill_tree': kt})
         ops.append(op)
         if s['timeout'] > 0:
             ops.append({'op': 'c16.joinplan', 'timeout': s['timeout']})
-    answers = iter(ck.model(ops))
+    ops.append({'op': 'c16.sudo', 'tree': tree0, 'kill_tree': True})
+    ops.append({'op': 'c16.sudo', 'tree': tree0, 'kill_tree': False})
+    all_answers = ck.model(ops)
+    sudo_model = {True: all_answers[-2], False: all_answers[-1]}
+    answers = iter(all_answers)
     for (s, kt, sudo) in sits:
         ans = next(answers)
         plan = next(answers)['slices'] if s['timeout'] > 0 else None
-        obs = K.run_decision(s, tree0, kt, sudo)
+        # now and then sudo is missing or refuses: the kill list is still walked, run() still ends as it should
+        outcomes = None
+        if sudo and rng.random() < 0.25:
+            outcomes = [rng.choice(['ok', 'fail', 'nosudo']) for _ in range(6)]
+        obs = K.run_decision(s, tree0, kt, sudo, outcomes)
+        if sudo and ['kill', tree0['pid']] in obs['trace']:
+            ck.count('kill through sudo: %s' % ('all calls succeed' if outcomes is None else 'some calls fail'))
+            want = sudo_model[kt]
+            if obs['sudo_calls'] != want['calls'] or (outcomes is None and obs['privileged_kills'] != want['killed']):
+                ck.disagree('c16.sudo: deliver_kill_signal / denoise kill vs RB.Kill.sudoCalls, sudoKilled',
+                            {'situation': s, 'kill_tree': kt}, {'sudo_calls': obs['sudo_calls'],
+                                                                'privileged_kills': obs['privileged_kills']}, want,
+                            ['RB.Kill.c16_sudo_calls', 'RB.Kill.c16_sudo_kills_whole_tree'])
+            if outcomes is None and sorted(set(obs['privileged_kills'])) != sorted(K.all_pids(tree0)):
+                ck.oracle_fail('tree_all_killed', {'situation': s, 'kill_tree': kt, 'uses_sudo': True},
+                               {'killed_by_the_privileged_helper': obs['privileged_kills'], 'tree': K.all_pids(tree0)},
+                               signature={'clause': 'tree_all_killed', 'mode': 'sudo-channel'})
         # the oracle judges only what an interpreter can produce: not "reported alive, but the worker has a result"
         honest = not (s['alive_reported'] and not s['child_running'])
-        ck.count('decision:%s' % s['join_end'])
+        ck.count('decision:%s' % (s['join_end'] if not s.get('start_interrupt') else 'interrupt in start(), ' + s['start_interrupt']))
         ck.count('limit:%s' % ('-1' if s['timeout'] == -1 else '<600' if s['timeout'] < 600 else '>=600'))
         ck.case(nontrivial_key=('d', json.dumps(s, sort_keys=True), kt, sudo),
                 sample={'situation': s, 'trace': obs['trace']} if rng.random() < 0.01 else None)
@@ -170,7 +207,15 @@ def check_decisions(ck):
         killed = [e[1] for e in obs['trace'] if e[0] == 'kill']
         should = (s['timeout'] != -1 or s['join_end'] == 'interrupt') and s['child_running']
         sig = {'mode': 'stub-thread', 'join_end': s['join_end']}
-        if should:
+        if s.get('start_interrupt'):
+            sig['during'] = 'thread.start()'
+        if should and sudo:
+            # through sudo the effect counts: what the privileged helper killed (it always takes the whole subtree)
+            if outcomes is None and sorted(set(obs['privileged_kills'])) != sorted(K.all_pids(tree0)):
+                ck.oracle_fail('running_child_killed', inp, {'killed_by_the_privileged_helper': obs['privileged_kills'],
+                                                              'handed_to_sudo': killed, 'tree': K.all_pids(tree0)},
+                               signature=dict(sig, clause='running_child_killed', channel='sudo'))
+        elif should:
             want = K.all_pids(tree0) if kt else [tree0['pid']]
             if sorted(killed) != sorted(want):
                 ck.oracle_fail('running_child_killed', inp, {'killed': killed, 'tree': want},
@@ -179,7 +224,9 @@ def check_decisions(ck):
             clause = 'minus_one_disables' if s['timeout'] == -1 and s['join_end'] != 'interrupt' else 'finished_never_killed'
             ck.oracle_fail(clause, inp, {'killed': killed}, signature=dict(sig, clause=clause))
         end = obs['trace'][-1]
-        if s['join_end'] == 'interrupt':
+        if end[0] == 'hangs':
+            ck.oracle_fail('rebench_exits', inp, {'end': end}, signature=dict(sig, clause='rebench_exits'))
+        elif s['join_end'] == 'interrupt':
             if end != ['raise', 'KeyboardInterrupt']:
                 ck.oracle_fail('interrupt_reraised', inp, {'end': end}, signature=dict(sig, clause='interrupt_reraised'))
         elif should and end != ['return', True]:
@@ -191,8 +238,9 @@ def check_real_thread(ck, n):
     """real `_SubprocessThread`, real `Thread.join`, real KeyboardInterrupt; the child is scripted"""
     from rebench import subprocess_with_timeout as swt
     rng = ck.rng
+    pending_model = []
     for idx in range(n):
-        mode = ['timeout', 'interrupt', 'finish', 'no-limit-finish', 'interrupt-with-limit'][idx % 5]
+        mode = ['timeout', 'interrupt', 'finish', 'no-limit-finish', 'interrupt-with-limit', 'interrupt-at-start'][idx % 6]
         sub = gen_tree(rng, [1000 * (idx + 1)], rng.choice([0, 1, 2, 3]), 3)
         holder = {}
 
@@ -206,11 +254,15 @@ def check_real_thread(ck, n):
             outcome, timeout = drive.Outcome(hang=True, out='partial\n'), -1
         elif mode == 'interrupt-with-limit':
             outcome, timeout = drive.Outcome(hang=True, out='partial\n'), 30
+        elif mode == 'interrupt-at-start':
+            outcome, timeout = drive.Outcome(hang=True, out='partial\n'), rng.choice([-1, 30])
         elif mode == 'finish':
             outcome, timeout = drive.Outcome(rc=rng.choice([0, 1, 3]), out='all\n'), 30
         else:
             outcome, timeout = drive.Outcome(rc=0, out='all\n'), -1
-        layer = K.TreeLayer(lambda rec: outcome, subtree_of, sigint_main=mode.startswith('interrupt'))
+        layer = K.TreeLayer(lambda rec: outcome, subtree_of, sigint_main=mode in ('interrupt', 'interrupt-with-limit'))
+        use_sudo = (idx // 6) % 2 == 1       # every second round goes through the (scripted) sudo channel
+        sudo = K.SudoWorld()
         alive_seen = []
         orig_alive = swt._SubprocessThread.is_alive
 
@@ -225,27 +277,49 @@ def check_real_thread(ck, n):
             layer.in_join.set()
             return orig_join_fn(*a, **kw)
         swt._join_with_keep_alive = join_spy
+        orig_start = swt._SubprocessThread.start
+
+        def start_spy(self):
+            orig_start(self)
+            if mode == 'interrupt-at-start':
+                # the worker is launched; a real SIGINT reaches the main thread before run() gets to the join:
+                # the KeyboardInterrupt is raised here, i.e. "inside thread.start()" as run() sees it
+                signal.pthread_kill(threading.main_thread().ident, signal.SIGINT)
+                for _ in range(200):
+                    pass
+        swt._SubprocessThread.start = start_spy
         end = None
         ret = None
         t_start = time.time()
         try:
-            with drive.scripted(layer):
+            with drive.scripted(layer), sudo.active():
                 try:
                     ret = swt.run('exe arg', env={}, cwd=None, shell=True, timeout=timeout, stdout=swt.PIPE,
-                                  stderr=swt.STDOUT)
+                                  stderr=swt.STDOUT, uses_sudo=use_sudo)
                     end = ['return', ret[0] == swt.E_TIMEOUT]
                 except KeyboardInterrupt:
                     end = ['raise', 'KeyboardInterrupt']
                 kills = list(layer.kills)
+                if use_sudo:
+                    # what run() itself asked for is the list handed to sudo; the helper's SIGKILLs are in layer.kills
+                    privileged = kills
+                    kills = [int(c[5]) if len(c) > 5 and c[5].isdigit() else -1 for c in sudo.calls]
                 K.release(layer)
         finally:
             swt._SubprocessThread.is_alive = orig_alive
             swt._join_with_keep_alive = orig_join_fn
+            swt._SubprocessThread.start = orig_start
         wall = time.time() - t_start
         tree = holder.get('tree')
-        inp = {'mode': mode, 'timeout': timeout, 'tree': tree}
+        inp = {'mode': mode, 'timeout': timeout, 'tree': tree, 'uses_sudo': use_sudo}
         interrupted = mode.startswith('interrupt')
-        running = mode in ('timeout', 'interrupt', 'interrupt-with-limit')
+        if use_sudo:
+            ck.count('real-thread: kill through sudo')
+            if kills and sorted(set(privileged)) != sorted(K.all_pids(tree)):
+                ck.oracle_fail('tree_all_killed', inp, {'killed_by_the_privileged_helper': privileged,
+                                                        'tree': K.all_pids(tree)},
+                               signature={'clause': 'tree_all_killed', 'mode': 'sudo-channel'})
+        running = mode in ('timeout', 'interrupt', 'interrupt-with-limit', 'interrupt-at-start')
         ck.count('real-thread:' + mode)
         ck.impl_traces += 1
         ck.case(nontrivial_key=('rt', idx, mode), sample={'mode': mode, 'kills': len(kills), 'end': end})
@@ -253,17 +327,22 @@ def check_real_thread(ck, n):
         reported = alive_seen[-1] if alive_seen else False
         if interrupted:
             ck.count('is_alive() after interrupted join: %s' % reported)
-        ans = ck.model([{'op': 'c16.run', 'tree': tree, 'kill_tree': True,
-                         'timeout': -1 if timeout == -1 else 1,
-                         'join_end': 'interrupt' if interrupted else ('deadline' if mode == 'timeout' else 'finished'),
-                         'alive_reported': bool(reported), 'child_running': running, 'worker_raised': False}])[0]
         obs_trace = [['kill', p] for p in kills] + ([['join']] if kills else []) + [end]
-        if obs_trace != ans['trace']:
-            ck.disagree('c16.run: subprocess_with_timeout.run (real worker thread, scripted child) vs RB.Kill.runTrace',
-                        inp, {'trace': obs_trace, 'is_alive_reported': reported}, ans, TH_RUN)
+        pending_model.append(({'op': 'c16.run', 'tree': tree, 'kill_tree': True,
+                               'timeout': -1 if timeout == -1 else 1,
+                               'join_end': 'interrupt' if interrupted else ('deadline' if mode == 'timeout' else 'finished'),
+                               'alive_reported': bool(reported), 'child_running': running, 'worker_raised': False},
+                              inp, obs_trace, reported))
         want = K.all_pids(tree)
         sig = {'mode': 'real-thread', 'join_end': 'interrupt' if interrupted else 'deadline'}
-        if running and sorted(kills) != sorted(want):
+        if mode == 'interrupt-at-start':
+            sig['during'] = 'thread.start()'
+        if running and use_sudo:
+            if sorted(set(privileged)) != sorted(want):
+                ck.oracle_fail('running_child_killed', inp, {'killed_by_the_privileged_helper': privileged,
+                                                             'handed_to_sudo': kills, 'tree': want},
+                               signature=dict(sig, clause='running_child_killed', channel='sudo'))
+        elif running and sorted(kills) != sorted(want):
             ck.oracle_fail('running_child_killed', inp,
                            {'killed': kills, 'tree': want, 'is_alive_reported_after_join': reported,
                             'python': '%d.%d.%d' % tuple(__import__('sys').version_info[:3])},
@@ -277,6 +356,14 @@ def check_real_thread(ck, n):
                            signature=dict(sig, clause='timeout_reported'))
         if mode == 'timeout' and wall > timeout + 5:
             ck.oracle_fail('timeout_reported', inp, {'wall': wall}, signature=dict(sig, clause='timeout_in_time'))
+
+
+    # the decisions as the model sees them (one driver start for all cases)
+    answers = ck.model([op for (op, _i, _t, _r) in pending_model])
+    for (op, inp, obs_trace, reported), ans in zip(pending_model, answers):
+        if obs_trace != ans['trace']:
+            ck.disagree('c16.run: subprocess_with_timeout.run (real worker thread, scripted child) vs RB.Kill.runTrace',
+                        inp, {'trace': obs_trace, 'is_alive_reported': reported}, ans, TH_RUN)
 
 
 # ------------------------------------------------------------------ D. classification through sessions
@@ -499,7 +586,7 @@ def run(ck):
         replay(ck, json.load(open(f)))
     check_trees(ck, 2000 if quick else 20000)
     check_decisions(ck)
-    check_real_thread(ck, 15 if quick else 100)
+    check_real_thread(ck, 18 if quick else 120)
     check_classification(ck, 16 if quick else 64)
     rng = ck.rng
     if quick:
@@ -529,8 +616,8 @@ def replay(ck, data):
     elif 'kind' in inp:
         check_real(ck, [(inp['kind'], inp['depth'], inp['fanout'], inp['limit'], inp['ignore_timeouts'],
                          inp.get('signal_at_invocation', 1))])
-    elif inp.get('mode') in ('timeout', 'interrupt', 'finish', 'no-limit-finish', 'interrupt-with-limit'):
-        check_real_thread(ck, 10)
+    elif inp.get('mode') in ('timeout', 'interrupt', 'finish', 'no-limit-finish', 'interrupt-with-limit', 'interrupt-at-start'):
+        check_real_thread(ck, 12)
     elif 'situation' in inp:
         check_decisions(ck)
     else:
